@@ -493,7 +493,7 @@ def merge_triple(gen, cls=None, minor=None, plain_eol=False):
         # both sides insert the IDENTICAL line(s) at one place of a source; one side (or both, differently) also edits the
         # line just below / above the insertion: an agreed insertion and a line patch meet at one line key
         n = r.choice([3, 4, 6])
-        lines = ["value_%d = %d" % (j, r.randrange(100)) for j in range(n)]
+        lines = [r.choice(["", "    ", "        "]) + "value_%d = %d" % (j, r.randrange(100)) for j in range(n)]
         fin = r.choice(["\n", "\n", ""])
         c = gen.cell(m, r.choice(["code", "markdown"]))
         c["source"] = "\n".join(lines) + fin
@@ -504,10 +504,23 @@ def merge_triple(gen, cls=None, minor=None, plain_eol=False):
         ins = ["shared = %d" % r.randrange(100)] * r.choice([1, 1, 2])
         ll, rl = list(lines), list(lines)
         who = r.choice(["local", "remote", "both"])
+
+        def edit_line(t, tail):
+            # append at the end / change inside / REMOVE a prefix (dedent, drop a leading token) / prepend
+            how = r.choice(["append", "append", "dedent", "drop_head", "prepend", "inside"])
+            if how == "dedent" and t.startswith("    "):
+                return t[4:]
+            if how == "drop_head":
+                return t.lstrip()[len("value_"):] if t.lstrip().startswith("value_") else t[1:]
+            if how == "prepend":
+                return "# " + t
+            if how == "inside":
+                return t.replace(" = ", " == ", 1)
+            return t + tail
         if who in ("local", "both"):
-            ll[j] = ll[j] + "0"
+            ll[j] = edit_line(ll[j], "0")
         if who in ("remote", "both"):
-            rl[j] = rl[j] + ("0" if r.random() < 0.3 else "7")
+            rl[j] = edit_line(rl[j], "0" if r.random() < 0.3 else "7")
         ll[j:j] = ins
         rl[j:j] = ins
         loc["cells"][pos]["source"] = "\n".join(ll) + fin
